@@ -975,7 +975,27 @@ replay:
 			r.driftf("unknown model step %q", s.N)
 		}
 	}
-	if !r.aborted && len(r.drift) == 0 && !pendingStart && r.odDone == nil {
+	// Whatever happened above (also when the real Service stopped following the model), the real system is
+	// in a state the environment may continue from: let a header deletion in flight finish, then soak.
+	if !r.aborted && !pendingStart {
+		if r.odDone != nil {
+			from := len(r.stub.snapshot(0))
+			r.st.mu.Lock()
+			g := r.st.odGate
+			r.st.odGate = nil
+			r.st.mu.Unlock()
+			if g != nil {
+				close(g)
+			}
+			select {
+			case <-r.odDone:
+				r.odDone, r.odPending = nil, 0
+				r.monitorCalls(r.stub.snapshot(from))
+			case <-time.After(30 * time.Second):
+				r.rep.Inconclusivef("behaviour %s: header deletion did not end", b.ID)
+				return
+			}
+		}
 		r.soak()
 	}
 }
